@@ -1,7 +1,7 @@
 CONSTANTS
   N = 4
   MaxTok = 2
-  MaxM = 8
+  MaxM = 7
   Z = 2
   MaxSize = 5
   MaxEvents = 0
